@@ -83,6 +83,8 @@ def translators():
   out['Src_sdml'] = lambda: translate_sdml.translate(REPO)
   import translate_rca
   out['Src_rca'] = lambda: translate_rca.translate(REPO)
+  import translate_psd
+  out['Src_psd'] = lambda: translate_psd.translate(REPO)
   import translate_pins
   out['Src_pins'] = lambda: translate_pins.translate(REPO)
   try:
